@@ -3,12 +3,14 @@ From V Require Export Bytes CaseLib ReqState ReqStateSpec.
 
 Inductive case :=
 | CSeq (st : static) (ops : list op) (panicked : bool) (steps : list (res * bool))
-       (lookups authn authz binds : nat)
+       (lookups authn authz binds : nat) (own_ok : bool)
+| CMulti (sts : list static) (sched : list (nat * op)) (panicked : bool)
+         (steps : list (list (res * bool))) (own_ok : bool)
 | CConc (n : nat) (panicked : bool) (all_own : bool).
 
 Definition check_case (c : case) : N :=
   match c with
-  | CSeq st ops panicked steps lookups authn authz binds =>
+  | CSeq st ops panicked steps lookups authn authz binds own_ok =>
     let s := run st ops state0 in
     let corr :=
       negb panicked &&
@@ -17,6 +19,17 @@ Definition check_case (c : case) : N :=
       Nat.eqb (n_authz (s_cnt s)) authz &&
       (* the consumer runs inside the binder: at most once per bind, never without one *)
       (binds <=? n_bind (s_cnt s)) in
-    verdict corr (negb panicked && memo_ok ops steps lookups authn binds)
+    verdict (corr && own_ok) (negb panicked && own_ok && memo_ok ops steps lookups authn binds)
+  | CMulti sts sched panicked steps own_ok =>
+    (* every request behaves as if its calls had run alone (C09_noninterference), and only ever sees its own values *)
+    let per_request :=
+      map (fun i => match nth_error sts i, nth_error steps i with
+                    | Some st, Some obs_i =>
+                      (list_eqb step_eqb (trace st (ops_of i sched) state0) obs_i,
+                       Nat.eqb (length (ops_of i sched)) (length obs_i) && reuse_ok (combine (ops_of i sched) obs_i))
+                    | _, _ => (false, false)
+                    end) (seq 0 (length sts)) in
+    verdict (negb panicked && own_ok && forallb fst per_request)
+            (negb panicked && own_ok && forallb snd per_request)
   | CConc n panicked all_own => verdict (negb panicked && all_own) (negb panicked && all_own)
   end.
